@@ -1,6 +1,7 @@
 package c07
 
 import (
+	"errors"
 	"fmt"
 	"sync"
 	"time"
@@ -15,9 +16,16 @@ import (
 // paused once.  Nothing else of the manager is changed.
 type gate struct {
 	mu      sync.Mutex
+	failNext bool // the next AddV2PoolTransactions of the wallet fails (a dependency failing in the middle)
 	armed   bool
 	entered chan struct{}
 	release chan struct{}
+}
+
+func (g *gate) failOnce(on bool) {
+	g.mu.Lock()
+	g.failNext = on
+	g.mu.Unlock()
 }
 
 func (g *gate) arm() {
@@ -34,10 +42,13 @@ type gatedCM struct {
 func (c *gatedCM) AddV2PoolTransactions(basis types.ChainIndex, txns []types.V2Transaction) (bool, error) {
 	if g := c.g; g != nil {
 		g.mu.Lock()
-		hold := g.armed
-		g.armed = false
+		hold, fail := g.armed, g.failNext
+		g.armed, g.failNext = false, false
 		entered, release := g.entered, g.release
 		g.mu.Unlock()
+		if fail {
+			return false, errors.New("injected: the pool is not reachable")
+		}
 		if hold {
 			close(entered)
 			select {
@@ -62,9 +73,6 @@ func runGated(name string, seed uint64) *vh.Case {
 	var keySeed [32]byte
 	rng.Bytes(keySeed[:])
 	e := newEnv(keySeed[:], cfg, delay)
-	e.gate = &gate{}
-	e.w.Close()
-	e.openWallet() // with the gate in place
 	defer e.close()
 	c := &vh.Case{Name: name, Nontrivial: true, Key: fmt.Sprintf("gated %d", seed)}
 	e.setup(rng)
